@@ -29,9 +29,11 @@ def PSm():
     return phasescreen
 
 
-def probe(N, delta, r0, L0, l0, sh=False):
+def probe(N, delta, r0, L0, l0, sh=False, N_as=None):
     ps = PSm()
-    f = ps.ft_sh_phase_screen if sh else ps.ft_phase_screen
+    f_ = ps.ft_sh_phase_screen if sh else ps.ft_phase_screen
+    Ncall = getattr(np, N_as)(N) if N_as else N        # the size as the caller holds it (an element of a uint16 header array ...)
+    f = lambda r0_, N_, *a, **k: f_(r0_, Ncall, *a, **k)
     nd = 2 * N * N + (54 if sh else 0)
     g = Scripted()
     zero = f(r0, N, delta, L0, l0, seed=g)
@@ -109,7 +111,8 @@ def cfgs(draw, nmax=24):
         # whole-number parameters given as Python / NumPy integers (a 1 m pixel, r0 = 1, L0 = 25) are the same numbers
         it = draw(st.sampled_from([int, np.int64, np.int32]))
         delta, r0, L0 = it(draw(st.integers(1, 3))), it(draw(st.integers(1, 4))), it(draw(st.sampled_from([5, 25, 100])))
-    return {"N": N, "delta": delta, "r0": r0, "L0": L0,
+    N_as = draw(st.sampled_from([None, None, None, "int64", "int32", "uint8", "uint16", "uint32", "int8", "int16"]))
+    return {"N": N, "delta": delta, "r0": r0, "L0": L0, "N_as": N_as,
             "l0": draw(st.one_of(gen.logfloat(1e-4, 0.1), st.just(2 * delta), st.just(delta), st.sampled_from([0, 0.0]))), "k": draw(gen.logfloat(0.3, 3.0)), "seed": draw(st.integers(0, 2**31))}
 
 
@@ -119,7 +122,7 @@ def hi_body(ctx, p):
     with warnings.catch_warnings():
         warnings.simplefilter("ignore")
         with np.errstate(all="ignore"):
-            L, zero, req = probe(N, delta, r0, L0, l0)
+            L, zero, req = probe(N, delta, r0, L0, l0, N_as=p.get("N_as"))
     ctx.require(zero.shape == (N, N), "screen shape %s" % (zero.shape,))
     ctx.require(not np.any(zero), "screen with all-zero draws is not zero (non-zero mean)")
     ctx.require([tuple(r) if r is not None else r for r in req] == [(N, N), (N, N)], "ft_phase_screen requested draws %r, expected two (N,N) blocks" % (req,))
@@ -165,8 +168,8 @@ def sh_body(ctx, p):
     ctx.case(p, nontrivial=N >= 4, classes=["N%d" % N])
     with warnings.catch_warnings():
         warnings.simplefilter("ignore")
-        Lh, _, _ = probe(N, delta, r0, L0, l0)
-        Ls, zero, req = probe(N, delta, r0, L0, l0, sh=True)
+        Lh, _, _ = probe(N, delta, r0, L0, l0, N_as=p.get("N_as"))
+        Ls, zero, req = probe(N, delta, r0, L0, l0, sh=True, N_as=p.get("N_as"))
     ctx.require(not np.any(zero), "sub-harmonic screen with all-zero draws is not zero")
     ctx.require(sum(int(np.prod(r)) for r in req) == 2 * N * N + 54, "ft_sh_phase_screen consumed %d draws, expected 2N^2+54" % sum(int(np.prod(r)) for r in req))
     ctx.close(Ls[:, :2 * N * N], Lh, 1e-12, "high-frequency part of the sub-harmonic screen == plain screen", scale=float(np.max(np.abs(Lh))) or 1.0, name="hi part")
@@ -308,7 +311,47 @@ def plan_body(ctx, p):
     ctx.require(not np.array_equal(c, a0), "different seeds give the same screen through a user-supplied FFT object")
 
 
+# ------------------------------------------------------------------ the same numbers in other scalar types
+
+def forms_cases(tier):
+    base = {"r0": 0.25, "N": 16, "delta": 0.5, "L0": 32.0, "l0": 0.0625}
+    ibase = {"r0": 2, "N": 24, "delta": 3, "L0": 64, "l0": 1}            # whole numbers: N * delta = 72, 27 * 72 wraps in 8 and 16 bit
+    out = []
+    for sh in (False, True):
+        for b, types in ((base, {"r0": ["float32", "float64"], "delta": ["float32", "float64"], "L0": ["float32", "int"], "l0": ["float32"], "N": ["int8", "uint8", "uint16", "int16", "uint32", "int64", "uint64"]}),
+                         (ibase, {"r0": ["int", "int8", "uint8", "float32"], "delta": ["int", "int8", "uint8", "int16"], "L0": ["int", "int8", "uint8"], "l0": ["int", "int8"], "N": ["int8", "uint8", "int16", "uint16"]})):
+            for field, tl in types.items():
+                for t in tl:
+                    out.append({"sh": sh, "base": b, "field": field, "type": t})
+            # two narrow types at once (N and delta): their product is formed in the narrow type
+            out.append({"sh": sh, "base": b, "field": "N,delta", "type": "int8"})
+    return out
+
+
+def forms_body(ctx, case):
+    """The same parameter values handed over as other scalar types (a NumPy integer read from a header, a float32 from a
+    configuration table, a Python int for a whole number) give the same screen, bit for bit, for the same seed."""
+    ps = PSm()
+    f = ps.ft_sh_phase_screen if case["sh"] else ps.ft_phase_screen
+    b = dict(case["base"])
+    ctx.case(case, nontrivial=True, classes=["sub_harmonic" if case["sh"] else "plain", case["field"] + "_as_" + case["type"]])
+    conv = (lambda v: int(v)) if case["type"] == "int" else getattr(np, case["type"])
+    typed = dict(b)
+    for fld in case["field"].split(","):
+        if float(conv(b[fld])) != float(b[fld]):
+            return                                      # not representable in that type: nothing to compare
+        typed[fld] = conv(b[fld])
+    with warnings.catch_warnings():
+        warnings.simplefilter("ignore")
+        with np.errstate(all="ignore"):
+            ref = f(float(b["r0"]), int(b["N"]), float(b["delta"]), float(b["L0"]), float(b["l0"]), seed=11)
+            got = f(typed["r0"], typed["N"], typed["delta"], typed["L0"], typed["l0"], seed=11)
+    ctx.equal(np.asarray(got), ref, "%s(r0=%r, N=%r, delta=%r, L0=%r, l0=%r) with %s given as %s differs from the call with Python numbers (same seed)" % (
+        "ft_sh_phase_screen" if case["sh"] else "ft_phase_screen", b["r0"], b["N"], b["delta"], b["L0"], b["l0"], case["field"], case["type"]))
+
+
 LAWS = [
+    plain_law("scalar_types", forms_cases, forms_body, shards={"quick": 2, "thorough": 2}),
     given_law("fft_object", plan_cases(), plan_body, {"quick": 60, "thorough": 600}, shards={"quick": 2, "thorough": 8}),
     given_law("hi_covariance_xl", cfgs(44), hi_body, {"quick": 0, "thorough": 2}, shards={"quick": 1, "thorough": 16}),
     given_law("hi_covariance", cfgs(24), hi_body, {"quick": 12, "thorough": 100}, shards={"quick": 6, "thorough": 16}),
